@@ -1337,9 +1337,9 @@ fn main() {
     }
 
     let threads = 16usize;
-    let sweep_rounds: usize = ctx.pick(6, 60);
+    let sweep_rounds: usize = ctx.pick(12, 60);
     let sweep = 5 * 71 * sweep_rounds;
-    let total: usize = ctx.pick(3_000, 40_000).max(sweep + 100);
+    let total: usize = ctx.pick(12_000, 40_000).max(sweep + 100);
     let big_max: usize = ctx.pick(1_500, 4_000);
     let log_every: usize = ctx.pick(4, 1);
     let next = AtomicUsize::new(0);
